@@ -273,14 +273,21 @@ func (u *Unit) execSelect(st *State, fr *Frame, x *ssa.Select, k Kont) {
 // selectEscape: obligation that a blocking select has a <-ctx.Done() case
 // (class `escape`), when the contract asks with `blocking_escape <ctx expr>`.
 func (u *Unit) selectEscape(st *State, fr *Frame, x *ssa.Select, chans []Term) {
-	if !x.Blocking {
-		return
-	}
 	ct := u.contractFor(fr.Fn)
 	if ct == nil {
 		ct = u.C
 	}
 	if ct == nil {
+		return
+	}
+	if !x.Blocking {
+		// a function whose channel operations must block (backpressure) may not poll
+		for _, cl := range ct.Clauses {
+			if cl.Kind == "blocking_escape" {
+				ord := u.siteOrdinal(x, "escape")
+				u.Prove(st, u.obligName("escape", fmt.Sprintf("select-blocks#%d", ord)), "escape", u.tagsOr(cl.Tags), posOf(x), "select has no default case (a send/receive here must block until the peer, the context or the remote side is ready)", False, nil)
+			}
+		}
 		return
 	}
 	for i, cl := range ct.Clauses {
@@ -327,6 +334,16 @@ func (u *Unit) builtinModels(st *State, fr *Frame, site ssa.Instruction, desigs 
 			u.ghostMonotone(st, "ctx_err", args[0])
 			e := u.ctxErr(st, args[0])
 			u.assume("context.Context.Err returns nil, context.Canceled or context.DeadlineExceeded, and never reverts to nil")
+			if cp := u.P.Prog.ImportedPackage("context"); cp != nil {
+				var alts []Term
+				alts = append(alts, Eq(e, NilV))
+				for _, n := range []string{"Canceled", "DeadlineExceeded"} {
+					if g, ok := cp.Members[n].(*ssa.Global); ok {
+						alts = append(alts, Eq(e, u.loadGlobal(st, g)))
+					}
+				}
+				u.Axiom(Or(alts...))
+			}
 			return Val{T: e}, true
 		case "context.Context.Done":
 			u.Fun("gh_ctx_done", []Sort{SV}, SV)
@@ -633,7 +650,17 @@ var _ = token.NoPos
 func init() {
 	ghostStateFuncs["ctx_err"] = func(e *Env, a []EVal) EVal {
 		e.u.ghostMonotone(e.st, "ctx_err", a[0].T)
-		return EVal{T: e.u.ctxErr(e.st, a[0].T)}
+		v := e.u.ctxErr(e.st, a[0].T)
+		if cp := e.u.P.Prog.ImportedPackage("context"); cp != nil {
+			alts := []Term{Eq(v, NilV)}
+			for _, n := range []string{"Canceled", "DeadlineExceeded"} {
+				if g, ok := cp.Members[n].(*ssa.Global); ok {
+					alts = append(alts, Eq(v, e.u.loadGlobal(e.st, g)))
+				}
+			}
+			e.u.Axiom(Or(alts...))
+		}
+		return EVal{T: v}
 	}
 	ghostStateFuncs["ctx_done"] = func(e *Env, a []EVal) EVal {
 		e.u.Fun("gh_ctx_done", []Sort{SV}, SV)
@@ -710,9 +737,13 @@ func (u *Unit) soleClosers(st *State, fr *Frame) {
 		if cl.Kind != "sole_closer" {
 			continue
 		}
+		if id, isID := cl.Expr.(EIdent); isID {
+			u.soleCloserVar(st, fr, cl, id.Name)
+			continue
+		}
 		sel, ok := cl.Expr.(ESel)
 		if !ok {
-			u.specError(cl, fmt.Errorf("sole_closer needs x.field"))
+			u.specError(cl, fmt.Errorf("sole_closer needs x.field or a captured variable"))
 			continue
 		}
 		env := u.entryEnv(fr, st)
@@ -826,4 +857,69 @@ type muOwnerInfo struct {
 	key string
 	typ *types.Named
 	pkg *types.Package
+}
+
+// soleCloserVar: `sole_closer v` for a captured (or local) channel variable v:
+// every close(v) in the enclosing function tree must be inside this unit.
+func (u *Unit) soleCloserVar(st *State, fr *Frame, cl *Clause, name string) {
+	env := u.entryEnv(fr, st)
+	env.fr = fr
+	chv, err := env.Eval(cl.Expr)
+	if err != nil {
+		u.specError(cl, err)
+		return
+	}
+	st.OwnedClose = append(st.OwnedClose, chv.T)
+	inside := map[*ssa.Function]bool{}
+	var mark func(f *ssa.Function)
+	mark = func(f *ssa.Function) {
+		inside[f] = true
+		for _, af := range f.AnonFuncs {
+			mark(af)
+		}
+	}
+	mark(u.Fn)
+	root := u.Fn
+	for root.Parent() != nil {
+		root = root.Parent()
+	}
+	bad := ""
+	var scan func(f *ssa.Function)
+	scan = func(f *ssa.Function) {
+		for _, b := range f.Blocks {
+			for _, in := range b.Instrs {
+				c, ok := in.(*ssa.Call)
+				if !ok {
+					continue
+				}
+				bi, ok := c.Call.Value.(*ssa.Builtin)
+				if !ok || bi.Name() != "close" {
+					continue
+				}
+				ld, ok := c.Call.Args[0].(*ssa.UnOp)
+				if !ok {
+					continue
+				}
+				vn := ""
+				switch x := ld.X.(type) {
+				case *ssa.FreeVar:
+					vn = x.Name()
+				case *ssa.Alloc:
+					vn = x.Comment
+				}
+				if vn == name && !inside[f] {
+					bad = f.Name()
+				}
+			}
+		}
+		for _, af := range f.AnonFuncs {
+			scan(af)
+		}
+	}
+	scan(root)
+	goal := True
+	if bad != "" {
+		goal = False
+	}
+	u.Prove(st, u.obligName("chan-owner", name), "chan-owner", u.tagsOr(cl.Tags), u.Fn.Pos(), "only this function closes "+cl.Text+" (syntactic scan of the enclosing function)", goal, nil)
 }
